@@ -4,6 +4,7 @@ import (
 	crand_ "crypto/rand"
 	"fmt"
 	"strings"
+	"time"
 
 	"example.com/scion-time/net/ntp"
 	"example.com/scion-time/net/nts"
@@ -375,6 +376,30 @@ func genScript(r *lib.Rng, shape int) []step {
 		for i := 0; i < 9; i++ {
 			add(0, actDeliver) // anything forged that got into the pool is sent by now
 		}
+	case 11: // key exchanges that fail in every way, after the fetcher has held data and lost it all
+		add(0, actDeliver)
+		for i := 0; i < 8; i++ {
+			add(0, lib.Pick(r, actDropReq, actDropReply))
+		}
+		for i := int(r.Range(1, 4)); i > 0; i-- {
+			add(0, actKeFail)
+		}
+		add(0, actDeliver)
+		add(0, actDeliver)
+		add(0, lib.Pick(r, actDeliver, actDropReply))
+		add(0, actDeliver)
+	case 12: // a key exchange that names a server the client cannot use: nothing is sent, the cookies go one by one
+		if r.Bool() {
+			add(0, actDeliver)
+			for i := 0; i < 8; i++ {
+				add(0, actDropReq)
+			}
+		}
+		add(0, actKeBadSrv)
+		for i := int(r.Range(1, 9)); i > 0; i-- {
+			add(0, actDeliver)
+		}
+		add(0, actDeliver)
 	case 7: // one real timeout
 		add(0, actDeliver)
 		add(0, actTimeout)
@@ -399,11 +424,11 @@ func genHistories(r *lib.Rng, tier string) (scripts [][]step) {
 		s = append(s, step{action: actDeliver}, step{action: actDeliver}, step{action: actDeliver})
 		scripts = append(scripts, s)
 	}
-	for _, sh := range []int{8, 9, 10} {
+	for _, sh := range []int{8, 9, 10, 11, 11, 11, 11, 11, 11, 12, 12} {
 		scripts = append(scripts, genScript(r, sh))
 	}
 	for i := 0; i < n; i++ {
-		shape := lib.Pick(r, 0, 1, 1, 1, 2, 2, 3, 3, 3, 4, 4, 5, 6, 6, 8, 8, 9, 10, 10)
+		shape := lib.Pick(r, 0, 1, 1, 1, 2, 2, 3, 3, 3, 4, 4, 5, 6, 6, 8, 8, 9, 10, 10, 11, 11, 11, 12)
 		if i%40 == 7 {
 			shape = 7
 		}
@@ -451,7 +476,9 @@ func genStore(w *lib.Writer, r *lib.Rng, tier string) {
 
 // ---- c11.srv: authenticated requests of any shape sent to the real listener ----
 
-// args: [nCookieFields nPlaceholders placeholderLen uidLen transport(0 IP, 1 SCION)]
+// args: [nCookieFields nPlaceholders placeholderLen uidLen transport(0 IP, 1 SCION) age1h age2h]:
+// the cookies are made, the provider is aged by age1 hours, asked for its current key (rotation),
+// aged by age2 hours, then the request is sent
 func (e *env) runSrv(args string) (tags, a, outs string) {
 	t := strings.Fields(strings.NewReplacer("[", " ", "]", " ").Replace(args))
 	nc, np, pl, ul := int(lib.ParseI(t[0])), int(lib.ParseI(t[1])), int(lib.ParseI(t[2])), int(lib.ParseI(t[3]))
@@ -463,6 +490,7 @@ func (e *env) runSrv(args string) (tags, a, outs string) {
 	// cookies made the way the NTS-KE server makes them
 	sc := ntske.ServerCookie{Algo: ntske.AES_SIV_CMAC_256, S2C: s2c, C2S: c2s}
 	key := e.provider.Current()
+	e.noteCurrent()
 	var pkt nts.Packet
 	pkt.UniqueID.ID = uid
 	for i := 0; i < nc; i++ {
@@ -499,7 +527,25 @@ func (e *env) runSrv(args string) (tags, a, outs string) {
 	}
 	var o stepObs
 	o.req = req
-	e.noteCurrent()
+	if len(t) > 6 {
+		if h := lib.ParseI(t[5]); h != 0 {
+			d := time.Duration(h) * time.Hour
+			e.provider.VerifAge(d)
+			e.aged += d
+			e.noteCurrent()
+			tags += ",aged"
+		}
+		if h := lib.ParseI(t[6]); h != 0 {
+			d := time.Duration(h) * time.Hour
+			e.provider.VerifAge(d)
+			e.aged += d
+			tags += ",aged"
+		}
+	}
+	o.openable = e.shouldOpen(pkt.Cookies[0].Cookie)
+	if !o.openable {
+		tags += ",nt,expired-key"
+	}
 	if len(t) > 4 && t[4] == "1" {
 		o.replies = e.toServerSCION(req)
 		tags += ",scion"
@@ -539,7 +585,7 @@ func (e *env) runSrv(args string) (tags, a, outs string) {
 		tags += ",nt"
 	}
 	return tags, a, lib.L(lib.I(1), lib.B(req), lib.I(int64(len(o.replies))), rep, lib.B(o.repNonce), lib.B(o.repCT),
-		lib.Bool(o.repAuthOK), lib.B(o.repPlain), lib.L(o.repCookies...), lib.B(c2s), lib.B(s2c), lib.I(e.noteCurrent()))
+		lib.Bool(o.repAuthOK), lib.B(o.repPlain), lib.L(o.repCookies...), lib.B(c2s), lib.B(s2c), lib.I(e.noteCurrent()), lib.Bool(o.openable))
 }
 
 func genSrv(r *lib.Rng, tier string) (js []job) {
@@ -547,10 +593,16 @@ func genSrv(r *lib.Rng, tier string) (js []job) {
 	if tier == "thorough" {
 		n = 2000
 	}
-	add := func(nc, np, pl, ul int) {
+	addAged := func(nc, np, pl, ul, a1, a2 int) {
 		for tr := 0; tr <= 1; tr++ {
-			js = append(js, job{"c11.srv", lib.L(lib.I(int64(nc)), lib.I(int64(np)), lib.I(int64(pl)), lib.I(int64(ul)), lib.I(int64(tr)))})
+			js = append(js, job{"c11.srv", lib.L(lib.I(int64(nc)), lib.I(int64(np)), lib.I(int64(pl)), lib.I(int64(ul)), lib.I(int64(tr)), lib.I(int64(a1)), lib.I(int64(a2)))})
 		}
+	}
+	add := func(nc, np, pl, ul int) { addAged(nc, np, pl, ul, 0, 0) }
+	// cookies under keys that have been rotated out but are still valid, and under expired keys
+	for _, a := range [][2]int{{25, 0}, {0, 47}, {25, 25}, {25, 46}, {71, 0}, {0, 73}, {25, 48}, {49, 25}, {73, 0}, {100, 100}, {30, 30}} {
+		addAged(1, 0, 124, 32, a[0], a[1])
+		addAged(1, 3, 124, 32, a[0], a[1])
 	}
 	// what this project's client sends, and more placeholders than fit (short ones)
 	for np := 0; np <= 12; np++ {
@@ -565,7 +617,11 @@ func genSrv(r *lib.Rng, tier string) (js []job) {
 		}
 		pl := lib.Pick(r, 0, 0, 4, 16, 124, 124, 124, 128)
 		ul := lib.Pick(r, 32, 32, 32, 33, 36, 64, 100, 160, 164)
-		add(nc, np, pl, ul)
+		if r.Intn(4) == 0 {
+			addAged(nc, np, pl, ul, lib.Pick(r, 0, 1, 25, 30, 49, 73), lib.Pick(r, 0, 23, 25, 47, 50, 80))
+		} else {
+			add(nc, np, pl, ul)
+		}
 	}
 	return js
 }
